@@ -17,7 +17,7 @@ SPECS = {
                                        "options never include pars=False, norm=False, raw!=False"],
     },
     'C12': {
-        'engine': 'editsim', 'mod': 'sim.engines', 'quick': 16000, 'thorough': 240000, 'level': 'fault_enumeration',
+        'engine': 'editsim', 'mod': 'sim.engines', 'quick': 32000, 'thorough': 320000, 'level': 'fault_enumeration',
         'rule': 'one evaluation = one seeded run: program + history of 2-10 requests mixing valid edits with invalid '
                 'requests of 12 fault kinds (F1 unparsable code, F2 wrong category, F3 ordering rule, F4 index/field, '
                 'F5 bad option, F6 consumed tree, F7 non-root tree, F8 circular put, F9 emptying a non-empty-only field, '
@@ -28,7 +28,7 @@ SPECS = {
         'assumptions': _EDIT_ASSUME + ['MemoryError/KeyboardInterrupt style asynchronous failures are not injected (pfst does not promise rollback for them)'],
     },
     'C02': {
-        'engine': 'editsim', 'mod': 'sim.engines', 'quick': 12000, 'thorough': 120000, 'level': 'exploration',
+        'engine': 'editsim', 'mod': 'sim.engines', 'quick': 16000, 'thorough': 160000, 'level': 'exploration',
         'rule': 'one evaluation = one seeded run: program + history of 2-10 ops mixing structured edits with read-only '
                 'query bursts (cache warming on seeded node subsets) and long-lived FSTView handles; after edits (every '
                 'step, every third step, or only at the end - a swarm knob, so cold and warm caches are both explored) ~70 '
@@ -125,7 +125,7 @@ SPECS = {
         'real_vs_stub': 'all pfst code ran real; the scheduler acts only at generator yields; stubs: none',
     },
     'C17': {
-        'engine': 'matchsim', 'mod': 'sim.engines', 'quick': 4000, 'thorough': 60000, 'level': 'exploration',
+        'engine': 'matchsim', 'mod': 'sim.engines', 'quick': 8000, 'thorough': 100000, 'level': 'exploration',
         'rule': 'one evaluation = one seeded schedule over 2-4 live search() generators (25 pattern families: types, wildcard, '
                 'MOR/MAND/MNOT, tags, back-references, greedy and non-greedy quantifiers, MRE) on 1-2 trees plus 2-8 plain '
                 'match() calls issued between yields; the scheduler picks who advances; every party result (matched path and '
@@ -148,7 +148,7 @@ SPECS = {
         'assumptions': _EDIT_ASSUME + ['only pattern/template families the reference can mirror exactly are generated; requests whose reference result is not valid Python are not judged'],
     },
     'C20': {
-        'engine': 'threadsim', 'mod': 'sim.engines', 'quick': 4000, 'thorough': 60000, 'level': 'exploration',
+        'engine': 'threadsim', 'mod': 'sim.engines', 'quick': 8000, 'thorough': 80000, 'level': 'exploration',
         'rule': 'one evaluation = one seeded schedule: 2-4 REAL threads, each with its own tree and a script of 3-10 ops '
                 '(set_options, nested options() blocks incl. bodies that raise = fault O1, invalid option names/values = '
                 'fault F5, edits and copies with and without per-call options, get_options() snapshots); only one thread is '
